@@ -1,1 +1,1252 @@
-//! reference semantics
+//! Reference semantics: a tree-walking big-step evaluator over the IR, written
+//! from the property statements and Appendix A of DESIGN.md. Three-valued:
+//! `Determined(result)` or `Undetermined(reason)` where the statements do not
+//! pin the answer.
+
+pub mod num;
+
+use std::collections::{BTreeMap, BTreeSet};
+
+use num::{Num, NumErr, wider};
+
+use crate::genr::ir::*;
+use crate::genr::print::{path_child, path_main, path_proc};
+
+#[derive(Clone, Debug, PartialEq)]
+pub enum Val {
+    N(Num),
+    S(String),
+    Rec(Vec<(String, Val)>),
+}
+
+impl Val {
+    pub fn num(&self) -> &Num {
+        match self {
+            Val::N(n) => n,
+            _ => panic!("refsem: expected number, got {:?}", self),
+        }
+    }
+    pub fn str(&self) -> &str {
+        match self {
+            Val::S(s) => s,
+            _ => panic!("refsem: expected string, got {:?}", self),
+        }
+    }
+}
+
+#[derive(Clone, Debug, PartialEq)]
+pub enum Cell {
+    Scalar(Val),
+    Array { bounds: Vec<(i32, i32)>, elems: Vec<Val> },
+    /// not yet allocated (arrays before their DIM executes)
+    Unset,
+}
+
+#[derive(Clone, Debug, PartialEq)]
+pub struct RefErr {
+    pub code: i32,
+    /// site keys where the error may be reported (e.g. FOR header or NEXT line)
+    pub paths: Vec<String>,
+    /// call-site paths, innermost first
+    pub call_sites: Vec<String>,
+}
+
+#[derive(Clone, Debug, PartialEq)]
+pub enum RefEnd {
+    Ok,
+    Err(RefErr),
+}
+
+#[derive(Clone, Debug)]
+pub struct RefResult {
+    pub stdout: String,
+    pub end: RefEnd,
+    /// known-defect triggers the execution passed through (for attribution)
+    pub triggers: BTreeSet<&'static str>,
+    pub statements: u64,
+    pub features: BTreeSet<String>,
+    /// final values of the main module's scalar variables and arrays (name -> rendering)
+    pub globals: BTreeMap<String, String>,
+    /// did a printed value depend on a variable
+    pub printed_var: bool,
+}
+
+pub enum Outcome {
+    Determined(RefResult),
+    Undetermined(String),
+}
+
+enum Stop {
+    Err(RefErr),
+    Undet(String),
+    Goto(String),
+    Return,
+    End,
+    ExitProc,
+    ResumeSame,
+    ResumeNext,
+}
+
+type R<T> = Result<T, Stop>;
+
+fn undet<T>(why: &str) -> R<T> {
+    Err(Stop::Undet(why.to_string()))
+}
+
+struct Frame {
+    proc_: Option<usize>,
+    cells: Vec<Cell>,
+}
+
+pub struct Machine<'a> {
+    prog: &'a Program,
+    out: String,
+    col: usize,
+    frames: Vec<Frame>,
+    statics: BTreeMap<usize, Vec<Cell>>,
+    data: Vec<DataItem>,
+    data_pos: usize,
+    handler: Option<String>,
+    in_handler: bool,
+    err_code: i32,
+    gosub_depth: usize,
+    call_sites: Vec<String>,
+    triggers: BTreeSet<&'static str>,
+    features: BTreeSet<String>,
+    statements: u64,
+    budget: u64,
+    printed_var: bool,
+    cur_expr_uses_var: bool,
+    call_depth: usize,
+}
+
+pub fn default_val(sty: &STy, prog: &Program) -> Val {
+    match sty {
+        STy::B(Ty::Str) => Val::S(String::new()),
+        STy::B(t) => Val::N(Num::whole(*t, 0)),
+        STy::Fixed(n) => Val::S(" ".repeat(*n as usize)),
+        STy::Rec(i) => Val::Rec(prog.types[*i].fields.iter().map(|(n, t)| (n.clone(), default_val(t, prog))).collect()),
+    }
+}
+
+fn fix_len(s: &str, n: usize) -> String {
+    let mut t: String = s.chars().take(n).collect();
+    while t.chars().count() < n {
+        t.push(' ');
+    }
+    t
+}
+
+impl<'a> Machine<'a> {
+    fn new(prog: &'a Program, budget: u64) -> Self {
+        let mut data = vec![];
+        for s in &prog.main {
+            if let Stmt::Data(items) = s {
+                data.extend(items.iter().cloned());
+            }
+        }
+        let cells = prog.vars.iter().map(|v| if v.bounds.is_empty() { Cell::Scalar(default_val(&v.sty, prog)) } else { Cell::Unset }).collect();
+        Machine {
+            prog,
+            out: String::new(),
+            col: 0,
+            frames: vec![Frame { proc_: None, cells }],
+            statics: BTreeMap::new(),
+            data,
+            data_pos: 0,
+            handler: None,
+            in_handler: false,
+            err_code: 0,
+            gosub_depth: 0,
+            call_sites: vec![],
+            triggers: BTreeSet::new(),
+            features: BTreeSet::new(),
+            statements: 0,
+            budget,
+            printed_var: false,
+            cur_expr_uses_var: false,
+            call_depth: 0,
+        }
+    }
+
+    fn feat(&mut self, f: &str) {
+        if !self.features.contains(f) {
+            self.features.insert(f.to_string());
+        }
+    }
+
+    fn err<T>(&self, code: i32, path: &str) -> R<T> {
+        Err(Stop::Err(RefErr { code, paths: vec![path.to_string()], call_sites: self.call_sites.clone() }))
+    }
+
+    fn num_err<T>(&self, e: NumErr, path: &str) -> R<T> {
+        match e {
+            NumErr::Overflow => self.err(6, path),
+            NumErr::DivZero => self.err(11, path),
+            NumErr::Tie => undet("exact tie when rounding to a whole number"),
+            NumErr::Inexact => undet("result not exactly representable (rounding needed)"),
+        }
+    }
+
+    // ---------------------------------------------------------------- storage
+
+    /// Resolves (frame index, cell index) of a variable of the current scope.
+    fn locate(&self, var: usize) -> (usize, usize) {
+        let fi = self.frames.len() - 1;
+        match self.frames[fi].proc_ {
+            None => (0, var),
+            Some(p) => {
+                let info = &self.prog.procs[p].vars[var];
+                if info.shared {
+                    let gi = self.prog.vars.iter().position(|g| g.name.eq_ignore_ascii_case(&info.name)).expect("shared variable must exist globally");
+                    (0, gi)
+                } else {
+                    (fi, var)
+                }
+            }
+        }
+    }
+
+    fn var_info(&self, var: usize) -> &VarInfo {
+        let fi = self.frames.len() - 1;
+        match self.frames[fi].proc_ {
+            None => &self.prog.vars[var],
+            Some(p) => &self.prog.procs[p].vars[var],
+        }
+    }
+
+    fn elem_index(&mut self, bounds: &[(i32, i32)], idx: &[Expr], path: &str) -> R<usize> {
+        let mut vals = vec![];
+        for e in idx {
+            let v = self.eval(e, path)?;
+            let n = v.num().clone();
+            let w = match n.round_whole() {
+                Ok(w) => w,
+                Err(NumErr::Tie) => return undet("tie in array subscript"),
+                Err(e) => return self.num_err(e, path),
+            };
+            vals.push(w);
+        }
+        if vals.len() != bounds.len() {
+            panic!("refsem: wrong number of subscripts generated");
+        }
+        let mut flat = 0usize;
+        for (k, w) in vals.iter().enumerate() {
+            let (lo, hi) = bounds[k];
+            if *w < lo as i128 || *w > hi as i128 {
+                self.feat("subscript-out-of-range");
+                return self.err(9, path);
+            }
+            let extent = (hi - lo + 1) as usize;
+            flat = flat * extent + (*w - lo as i128) as usize;
+        }
+        Ok(flat)
+    }
+
+    fn load(&mut self, l: &LValue, path: &str) -> R<Val> {
+        self.cur_expr_uses_var = true;
+        let (fi, ci) = self.locate(l.var);
+        let base: Val = match &self.frames[fi].cells[ci] {
+            Cell::Scalar(v) => {
+                if !l.index.is_empty() {
+                    panic!("refsem: subscript on scalar {}", l.name);
+                }
+                v.clone()
+            }
+            Cell::Array { bounds, .. } => {
+                let bounds = bounds.clone();
+                let k = self.elem_index(&bounds, &l.index, path)?;
+                match &self.frames[fi].cells[ci] {
+                    Cell::Array { elems, .. } => elems[k].clone(),
+                    _ => unreachable!(),
+                }
+            }
+            Cell::Unset => return undet("array used before its DIM executed"),
+        };
+        let mut v = base;
+        for f in &l.fields {
+            v = match v {
+                Val::Rec(fs) => fs.into_iter().find(|(n, _)| n.eq_ignore_ascii_case(f)).map(|(_, v)| v).expect("field"),
+                _ => panic!("refsem: field access on non-record"),
+            };
+        }
+        Ok(v)
+    }
+
+    /// Converts `v` for storage into a location of type `sty`.
+    fn coerce(&self, v: Val, sty: &STy, path: &str) -> R<Val> {
+        match (sty, v) {
+            (STy::B(Ty::Str), Val::S(s)) => Ok(Val::S(s)),
+            (STy::Fixed(n), Val::S(s)) => Ok(Val::S(fix_len(&s, *n as usize))),
+            (STy::B(t), Val::N(n)) if t.is_numeric() => match n.convert(*t) {
+                Ok(c) => Ok(Val::N(c)),
+                Err(e) => self.num_err(e, path),
+            },
+            (STy::Rec(_), v @ Val::Rec(_)) => Ok(v),
+            (s, v) => panic!("refsem: ill-typed store of {:?} into {:?}", v, s),
+        }
+    }
+
+    fn store(&mut self, l: &LValue, v: Val, path: &str) -> R<()> {
+        // subscripts are evaluated before the conversion error is raised? Either order gives the same
+        // first error in generated programs (at most one failing sub-expression per statement).
+        let (fi, ci) = self.locate(l.var);
+        let slot: Option<usize> = match &self.frames[fi].cells[ci] {
+            Cell::Scalar(_) => None,
+            Cell::Array { bounds, .. } => {
+                let bounds = bounds.clone();
+                Some(self.elem_index(&bounds, &l.index, path)?)
+            }
+            Cell::Unset => return undet("array used before its DIM executed"),
+        };
+        let v = self.coerce(v, &l.sty, path)?;
+        let cell = &mut self.frames[fi].cells[ci];
+        let target: &mut Val = match cell {
+            Cell::Scalar(x) => x,
+            Cell::Array { elems, .. } => &mut elems[slot.unwrap()],
+            Cell::Unset => unreachable!(),
+        };
+        let mut t = target;
+        for f in &l.fields {
+            t = match t {
+                Val::Rec(fs) => fs.iter_mut().find(|(n, _)| n.eq_ignore_ascii_case(f)).map(|(_, v)| v).expect("field"),
+                _ => panic!("refsem: field store on non-record"),
+            };
+        }
+        *t = v;
+        Ok(())
+    }
+
+    // ------------------------------------------------------------ expressions
+
+    pub fn static_ty(&self, e: &Expr) -> Ty {
+        match e {
+            Expr::Lit(Lit::Whole(v)) => {
+                if *v <= 32767 {
+                    Ty::Int
+                } else {
+                    Ty::Long
+                }
+            }
+            Expr::Lit(Lit::Frac { double, .. }) => {
+                if *double {
+                    Ty::Double
+                } else {
+                    Ty::Single
+                }
+            }
+            Expr::Lit(Lit::WholeDouble(_)) => Ty::Double,
+            Expr::Lit(Lit::Str(_)) => Ty::Str,
+            Expr::Load(l) => l.ety(),
+            Expr::Const(_, t) => *t,
+            Expr::Un(_, x) => self.static_ty(x),
+            Expr::Paren(x) => self.static_ty(x),
+            Expr::Bin(op, a, b) => {
+                let ta = self.static_ty(a);
+                let tb = self.static_ty(b);
+                match op {
+                    BinOp::Add | BinOp::Sub | BinOp::Mul => {
+                        if ta == Ty::Str {
+                            Ty::Str
+                        } else {
+                            wider(ta, tb)
+                        }
+                    }
+                    BinOp::Div => {
+                        if ta == Ty::Double || tb == Ty::Double {
+                            Ty::Double
+                        } else {
+                            Ty::Single
+                        }
+                    }
+                    _ => Ty::Int,
+                }
+            }
+            Expr::Call(p, _) => self.prog.procs[*p].ret.expect("function"),
+            Expr::BuiltIn { ty, .. } => *ty,
+        }
+    }
+
+    /// Would the implementation's static typing give this expression a whole-number type?
+    /// (It types `/` like `+ - *`: the wider operand type. Used only to attribute failures to the known finding.)
+    fn impl_types_whole(&self, e: &Expr) -> bool {
+        match e {
+            Expr::Lit(Lit::Whole(v)) => *v <= 2147483647,
+            Expr::Lit(_) => false,
+            Expr::Load(l) => l.sty.ety().map(|t| t.is_whole()).unwrap_or(false),
+            Expr::Const(_, t) => t.is_whole(),
+            Expr::Un(_, x) | Expr::Paren(x) => self.impl_types_whole(x),
+            Expr::Bin(op, a, b) => match op {
+                BinOp::Add | BinOp::Sub | BinOp::Mul | BinOp::Div => self.impl_types_whole(a) && self.impl_types_whole(b),
+                _ => true,
+            },
+            Expr::Call(p, _) => self.prog.procs[*p].ret.map(|t| t.is_whole()).unwrap_or(false),
+            Expr::BuiltIn { ty, .. } => ty.is_whole(),
+        }
+    }
+
+    fn lit(&self, l: &Lit) -> R<Val> {
+        Ok(match l {
+            Lit::Whole(v) => {
+                if *v <= 32767 {
+                    Val::N(Num::whole(Ty::Int, *v))
+                } else if *v <= 2147483647 {
+                    Val::N(Num::whole(Ty::Long, *v))
+                } else {
+                    Val::N(Num::whole(Ty::Double, *v))
+                }
+            }
+            Lit::WholeDouble(v) => Val::N(Num::whole(Ty::Double, *v)),
+            Lit::Frac { num, shift, double } => Val::N(Num::new(if *double { Ty::Double } else { Ty::Single }, *num as i128, *shift)),
+            Lit::Str(s) => Val::S(s.clone()),
+        })
+    }
+
+    fn mixed_guard(&self, a: &Num, b: &Num) -> R<()> {
+        // an integer operand converted to f32 by the implementation must be exactly representable
+        let lim = 1i128 << 24;
+        if (a.ty == Ty::Single && b.ty.is_whole() && b.m.abs() >= lim) || (b.ty == Ty::Single && a.ty.is_whole() && a.m.abs() >= lim) {
+            return undet("whole operand beyond 2^24 mixed with SINGLE");
+        }
+        Ok(())
+    }
+
+    fn round_operand(&mut self, n: &Num, path: &str) -> R<i128> {
+        match n.round_whole() {
+            Ok(w) => Ok(w),
+            Err(NumErr::Tie) => undet("tie when rounding an operand of MOD/AND/OR/NOT"),
+            Err(e) => self.num_err(e, path),
+        }
+    }
+
+    fn binop(&mut self, op: BinOp, a: Val, b: Val, path: &str) -> R<Val> {
+        if let (Val::S(x), Val::S(y)) = (&a, &b) {
+            return Ok(match op {
+                BinOp::Add => Val::S(format!("{}{}", x, y)),
+                o if o.is_relational() => {
+                    let ord = x.as_bytes().cmp(y.as_bytes());
+                    Val::N(Num::whole(Ty::Int, if rel(o, ord) { -1 } else { 0 }))
+                }
+                _ => panic!("refsem: ill-typed string operator"),
+            });
+        }
+        let x = a.num().clone();
+        let y = b.num().clone();
+        match op {
+            BinOp::Add | BinOp::Sub | BinOp::Mul => {
+                self.mixed_guard(&x, &y)?;
+                let ty = wider(x.ty, y.ty);
+                let r = match op {
+                    BinOp::Add => x.add(&y, ty),
+                    BinOp::Sub => x.sub(&y, ty),
+                    _ => x.mul(&y, ty),
+                };
+                match r.fits(ty) {
+                    Ok(()) => Ok(Val::N(r)),
+                    Err(NumErr::Overflow) => {
+                        if ty.is_whole() {
+                            self.triggers.insert("int-arith-overflow-unguarded");
+                            self.feat("int-arith-overflow");
+                        }
+                        self.err(6, path)
+                    }
+                    Err(e) => self.num_err(e, path),
+                }
+            }
+            BinOp::Div => {
+                self.mixed_guard(&x, &y)?;
+                let ty = if x.ty == Ty::Double || y.ty == Ty::Double { Ty::Double } else { Ty::Single };
+                if x.ty == Ty::Long && y.ty == Ty::Long {
+                    return undet("LONG / LONG result type");
+                }
+                match x.div(&y, ty) {
+                    Ok(r) => {
+                        if x.ty.is_whole() && y.ty.is_whole() && !r.is_whole() {
+                            self.triggers.insert("div-of-whole-operands-typed-whole");
+                        }
+                        match r.fits(ty) {
+                            Ok(()) => Ok(Val::N(r)),
+                            Err(e) => self.num_err(e, path),
+                        }
+                    }
+                    Err(NumErr::DivZero) => {
+                        self.feat("division-by-zero");
+                        self.err(11, path)
+                    }
+                    Err(e) => self.num_err(e, path),
+                }
+            }
+            BinOp::Mod | BinOp::And | BinOp::Or => {
+                let xa = self.round_operand(&x, path)?;
+                let yb = self.round_operand(&y, path)?;
+                let in16 = |v: i128| (-32768..=32767).contains(&v);
+                if !in16(xa) || !in16(yb) {
+                    self.triggers.insert("mod-and-or-beyond-integer-range");
+                    if xa < -2147483648 || xa > 2147483647 || yb < -2147483648 || yb > 2147483647 {
+                        return self.err(6, path);
+                    }
+                }
+                match op {
+                    BinOp::Mod => {
+                        if yb == 0 {
+                            self.feat("division-by-zero");
+                            return self.err(11, path);
+                        }
+                        let r = xa % yb; // sign of the dividend
+                        Ok(Val::N(Num::whole(if in16(xa) && in16(yb) { Ty::Int } else { Ty::Long }, r as i64)))
+                    }
+                    BinOp::And => Ok(Val::N(Num::whole(if in16(xa) && in16(yb) { Ty::Int } else { Ty::Long }, (xa & yb) as i64))),
+                    _ => Ok(Val::N(Num::whole(if in16(xa) && in16(yb) { Ty::Int } else { Ty::Long }, (xa | yb) as i64))),
+                }
+            }
+            o => {
+                self.mixed_guard(&x, &y)?;
+                let ord = x.cmp(&y);
+                Ok(Val::N(Num::whole(Ty::Int, if rel(o, ord) { -1 } else { 0 })))
+            }
+        }
+    }
+
+    fn eval(&mut self, e: &Expr, path: &str) -> R<Val> {
+        match e {
+            Expr::Lit(l) => self.lit(l),
+            Expr::Load(l) => self.load(l, path),
+            Expr::Const(..) => panic!("refsem: constants are substituted before evaluation"),
+            Expr::Paren(x) => self.eval(x, path),
+            Expr::Un(UnOp::Neg, x) => {
+                let v = self.eval(x, path)?;
+                let n = v.num().neg();
+                match n.fits(n.ty) {
+                    Ok(()) => Ok(Val::N(n)),
+                    Err(e) => self.num_err(e, path),
+                }
+            }
+            Expr::Un(UnOp::Not, x) => {
+                let v = self.eval(x, path)?;
+                let n = v.num().clone();
+                if !n.ty.is_whole() {
+                    return undet("NOT on a floating operand (result type)");
+                }
+                Ok(Val::N(Num::whole(n.ty, (-n.m - 1) as i64)))
+            }
+            Expr::Bin(op, a, b) => {
+                let va = self.eval(a, path)?;
+                let vb = self.eval(b, path)?;
+                let r = self.binop(*op, va, vb, path)?;
+                if *op == BinOp::Div && self.impl_types_whole(a) && self.impl_types_whole(b) {
+                    if let Val::N(n) = &r {
+                        if !n.is_whole() {
+                            // the implementation types this quotient INTEGER/LONG (no conversion is emitted on stores)
+                            self.triggers.insert("div-of-whole-operands-typed-whole");
+                        }
+                    }
+                }
+                Ok(r)
+            }
+            Expr::Call(p, args) => self.call(*p, args, path).map(|v| v.expect("function value")),
+            Expr::BuiltIn { name, args, .. } => self.builtin(name, args, path),
+        }
+    }
+
+    fn builtin(&mut self, name: &str, args: &[Expr], path: &str) -> R<Val> {
+        let up = name.to_uppercase();
+        match up.as_str() {
+            "ERR" => Ok(Val::N(Num::whole(Ty::Int, self.err_code as i64))),
+            "LEN" => {
+                let v = self.eval(&args[0], path)?;
+                Ok(Val::N(Num::whole(Ty::Int, v.str().chars().count() as i64)))
+            }
+            "UCASE$" => {
+                let v = self.eval(&args[0], path)?;
+                Ok(Val::S(v.str().to_ascii_uppercase()))
+            }
+            "LCASE$" => {
+                let v = self.eval(&args[0], path)?;
+                Ok(Val::S(v.str().to_ascii_lowercase()))
+            }
+            "LBOUND" | "UBOUND" => {
+                let Expr::Load(l) = &args[0] else { panic!("refsem: LBOUND of non-variable") };
+                let (fi, ci) = self.locate(l.var);
+                let dim = if args.len() > 1 {
+                    let d = self.eval(&args[1], path)?;
+                    d.num().round_whole().map_err(|_| Stop::Undet("tie in LBOUND dimension".into()))? as usize
+                } else {
+                    1
+                };
+                match &self.frames[fi].cells[ci] {
+                    Cell::Array { bounds, .. } => {
+                        if dim < 1 || dim > bounds.len() {
+                            return self.err(9, path);
+                        }
+                        let (lo, hi) = bounds[dim - 1];
+                        Ok(Val::N(Num::whole(Ty::Int, if up == "LBOUND" { lo } else { hi } as i64)))
+                    }
+                    _ => undet("LBOUND/UBOUND of unallocated array"),
+                }
+            }
+            _ => undet("built-in outside the reference semantics"),
+        }
+    }
+
+    // ------------------------------------------------------------------ calls
+
+    fn call(&mut self, p: usize, args: &[Expr], path: &str) -> R<Option<Val>> {
+        let prog = self.prog;
+        let pr = &prog.procs[p];
+        if self.call_depth > 40 {
+            return undet("reference call depth limit");
+        }
+        self.feat(if pr.ret.is_some() { "function-call" } else { "sub-call" });
+        // evaluate arguments left to right
+        let mut bound: Vec<Val> = vec![];
+        let mut copy_out: Vec<Option<LValueResolved>> = vec![];
+        for (k, a) in args.iter().enumerate() {
+            let param = &pr.params[k];
+            match a {
+                Expr::Load(l) if l.sty == param.sty && !param.array => {
+                    // by reference: resolve the caller's path now (subscripts evaluated once)
+                    let res = self.resolve(l, path)?;
+                    let v = self.read_resolved(&res);
+                    bound.push(v);
+                    copy_out.push(Some(res));
+                    self.feat("by-ref-arg");
+                }
+                Expr::Load(l) if param.array => {
+                    let (fi, ci) = self.locate(l.var);
+                    let _ = (fi, ci);
+                    return undet("array parameters not modelled");
+                }
+                other => {
+                    let v = self.eval(other, path)?;
+                    let v = self.coerce(v, &param.sty, path)?;
+                    bound.push(v);
+                    copy_out.push(None);
+                    if matches!(other, Expr::Load(_)) {
+                        self.feat("by-val-converted-variable");
+                    }
+                }
+            }
+        }
+        // frame
+        let mut cells: Vec<Cell> = if pr.is_static {
+            match self.statics.get(&p).cloned() {
+                Some(c) => {
+                    self.feat("static-reentry");
+                    c
+                }
+                None => pr.vars.iter().map(|v| if v.bounds.is_empty() { Cell::Scalar(default_val(&v.sty, prog)) } else { Cell::Unset }).collect(),
+            }
+        } else {
+            pr.vars.iter().map(|v| if v.bounds.is_empty() { Cell::Scalar(default_val(&v.sty, prog)) } else { Cell::Unset }).collect()
+        };
+        for (k, v) in bound.into_iter().enumerate() {
+            cells[pr.params[k].var] = Cell::Scalar(v);
+        }
+        if let Some(rv) = pr.result_var {
+            cells[rv] = Cell::Scalar(default_val(&STy::B(pr.ret.unwrap()), prog));
+        }
+        if self.call_depth >= 1 {
+            self.feat("nested-call");
+        }
+        self.frames.push(Frame { proc_: Some(p), cells });
+        self.call_sites.insert(0, path.to_string());
+        self.call_depth += 1;
+        let saved_gosub = self.gosub_depth;
+        self.gosub_depth = 0;
+        let r = self.run_block_top(&pr.body, &|i| path_proc(p, i));
+        self.gosub_depth = saved_gosub;
+        self.call_depth -= 1;
+        self.call_sites.remove(0);
+        let frame = self.frames.pop().unwrap();
+        match r {
+            Ok(()) | Err(Stop::ExitProc) => {}
+            Err(Stop::Goto(_)) => panic!("refsem: GOTO escaped a procedure"),
+            Err(other) => return Err(other),
+        }
+        if pr.is_static {
+            self.statics.insert(p, frame.cells.clone());
+        }
+        // copy out, left to right
+        for (k, co) in copy_out.iter().enumerate() {
+            if let Some(res) = co {
+                if let Cell::Scalar(v) = &frame.cells[pr.params[k].var] {
+                    let v = v.clone();
+                    self.write_resolved(res, v);
+                }
+            }
+        }
+        let ret = pr.result_var.map(|rv| match &frame.cells[rv] {
+            Cell::Scalar(v) => v.clone(),
+            _ => panic!("refsem: function result cell"),
+        });
+        Ok(ret)
+    }
+
+    fn resolve(&mut self, l: &LValue, path: &str) -> R<LValueResolved> {
+        let (fi, ci) = self.locate(l.var);
+        let slot = match &self.frames[fi].cells[ci] {
+            Cell::Scalar(_) => None,
+            Cell::Array { bounds, .. } => {
+                let b = bounds.clone();
+                Some(self.elem_index(&b, &l.index, path)?)
+            }
+            Cell::Unset => return undet("array used before its DIM executed"),
+        };
+        Ok(LValueResolved { fi, ci, slot, fields: l.fields.clone(), sty: l.sty.clone() })
+    }
+    fn read_resolved(&self, r: &LValueResolved) -> Val {
+        let mut v = match &self.frames[r.fi].cells[r.ci] {
+            Cell::Scalar(v) => v.clone(),
+            Cell::Array { elems, .. } => elems[r.slot.unwrap()].clone(),
+            Cell::Unset => unreachable!(),
+        };
+        for f in &r.fields {
+            v = match v {
+                Val::Rec(fs) => fs.into_iter().find(|(n, _)| n.eq_ignore_ascii_case(f)).map(|(_, v)| v).expect("field"),
+                _ => panic!("field"),
+            };
+        }
+        v
+    }
+    fn write_resolved(&mut self, r: &LValueResolved, v: Val) {
+        let v = match (&r.sty, v) {
+            (STy::Fixed(n), Val::S(s)) => Val::S(fix_len(&s, *n as usize)),
+            (_, v) => v,
+        };
+        let cell = &mut self.frames[r.fi].cells[r.ci];
+        let mut t: &mut Val = match cell {
+            Cell::Scalar(x) => x,
+            Cell::Array { elems, .. } => &mut elems[r.slot.unwrap()],
+            Cell::Unset => unreachable!(),
+        };
+        for f in &r.fields {
+            t = match t {
+                Val::Rec(fs) => fs.iter_mut().find(|(n, _)| n.eq_ignore_ascii_case(f)).map(|(_, v)| v).expect("field"),
+                _ => panic!("field"),
+            };
+        }
+        *t = v;
+    }
+
+    // ------------------------------------------------------------- statements
+
+    fn print_val(&mut self, v: &Val) -> R<()> {
+        match v {
+            Val::S(s) => {
+                for ch in s.chars() {
+                    self.out.push(ch);
+                    if ch == '\r' || ch == '\n' {
+                        self.col = 0;
+                    } else {
+                        self.col += 1;
+                    }
+                }
+                Ok(())
+            }
+            Val::N(n) => {
+                let Some(d) = n.print_digits() else { return undet("number needs more digits than its type prints exactly") };
+                let t = format!("{}{} ", if n.m < 0 { "-" } else { " " }, d);
+                self.col += t.len();
+                self.out.push_str(&t);
+                Ok(())
+            }
+            Val::Rec(_) => panic!("refsem: PRINT of a record"),
+        }
+    }
+
+    fn exec_print(&mut self, items: &[PrintItem], path: &str) -> R<()> {
+        // evaluate and print item by item (an error in a later item leaves the earlier output)
+        let mut ends_with_sep = false;
+        for it in items {
+            match it {
+                PrintItem::E(e) => {
+                    self.cur_expr_uses_var = false;
+                    let v = self.eval(e, path)?;
+                    if self.cur_expr_uses_var {
+                        self.printed_var = true;
+                    }
+                    self.print_val(&v)?;
+                    ends_with_sep = false;
+                }
+                PrintItem::Semi => ends_with_sep = true,
+                PrintItem::Comma => {
+                    let pad = 14 - self.col % 14;
+                    for _ in 0..pad {
+                        self.out.push(' ');
+                    }
+                    self.col += pad;
+                    ends_with_sep = true;
+                    self.feat("print-comma");
+                }
+            }
+        }
+        if self.col >= 79 {
+            return undet("screen line reaches column 80");
+        }
+        if !ends_with_sep {
+            self.out.push_str("\r\n");
+            self.col = 0;
+        }
+        Ok(())
+    }
+
+    fn truthy(&mut self, e: &Expr, path: &str) -> R<bool> {
+        let v = self.eval(e, path)?;
+        Ok(!v.num().is_zero())
+    }
+
+    fn case_matches(&mut self, subject: &Val, item: &CaseItem, path: &str) -> R<bool> {
+        match item {
+            CaseItem::Val(e) => {
+                let v = self.eval(e, path)?;
+                let r = self.binop(BinOp::Eq, subject.clone(), v, path)?;
+                Ok(!r.num().is_zero())
+            }
+            CaseItem::Is(op, e) => {
+                let v = self.eval(e, path)?;
+                let r = self.binop(*op, subject.clone(), v, path)?;
+                Ok(!r.num().is_zero())
+            }
+            CaseItem::Range(a, b) => {
+                let va = self.eval(a, path)?;
+                let vb = self.eval(b, path)?;
+                let ge = self.binop(BinOp::Ge, subject.clone(), va, path)?;
+                let le = self.binop(BinOp::Le, subject.clone(), vb, path)?;
+                Ok(!ge.num().is_zero() && !le.num().is_zero())
+            }
+        }
+    }
+
+    /// Executes one statement; failing simple statements consult the active handler.
+    fn exec(&mut self, s: &Stmt, path: &str) -> R<()> {
+        self.statements += 1;
+        if self.statements > self.budget {
+            return undet("reference statement budget");
+        }
+        loop {
+            let r = self.exec_inner(s, path);
+            match r {
+                Err(Stop::Err(e)) if self.handler.is_some() && !self.in_handler && self.frames.len() == 1 => {
+                    // dispatch to the handler (module-level failing statements only)
+                    let h = self.handler.clone().unwrap();
+                    self.feat("error-handled");
+                    self.err_code = e.code;
+                    self.in_handler = true;
+                    let hr = self.run_from_label_main(&h);
+                    self.in_handler = false;
+                    match hr {
+                        Err(Stop::ResumeSame) => {
+                            self.err_code = 0;
+                            self.feat("resume");
+                            continue;
+                        }
+                        Err(Stop::ResumeNext) => {
+                            self.err_code = 0;
+                            self.feat("resume-next");
+                            return Ok(());
+                        }
+                        Err(Stop::Goto(l)) => {
+                            // RESUME label
+                            self.err_code = 0;
+                            self.feat("resume-label");
+                            return Err(Stop::Goto(l));
+                        }
+                        Ok(()) => return Err(Stop::End),
+                        Err(other) => return Err(other),
+                    }
+                }
+                Err(Stop::Err(e)) if self.handler.is_some() && (self.in_handler || self.frames.len() > 1) => {
+                    let _ = e;
+                    return undet("error inside a handler or inside a procedure while a handler is active");
+                }
+                other => return other,
+            }
+        }
+    }
+
+    fn exec_inner(&mut self, s: &Stmt, path: &str) -> R<()> {
+        match s {
+            Stmt::Assign(l, e) => {
+                let v = self.eval(e, path)?;
+                self.store(l, v, path)
+            }
+            Stmt::Print(items) => self.exec_print(items, path),
+            Stmt::If { arms, else_ } => {
+                self.feat("if-block");
+                for (k, (c, body)) in arms.iter().enumerate() {
+                    let hp = if k == 0 { path.to_string() } else { format!("{}/arm{}", path, k) };
+                    if self.truthy(c, &hp)? {
+                        self.feat("branch-taken");
+                        return self.run_block(body, path, &format!("a{}", k));
+                    }
+                }
+                if let Some(e) = else_ {
+                    self.feat("branch-taken");
+                    return self.run_block(e, path, "else");
+                }
+                Ok(())
+            }
+            Stmt::IfLine { cond, then_, else_ } => {
+                self.feat("if-line");
+                if self.truthy(cond, path)? {
+                    self.feat("branch-taken");
+                    self.exec(then_, &format!("{}/then/0", path))
+                } else if let Some(e) = else_ {
+                    self.feat("branch-taken");
+                    self.exec(e, &format!("{}/else/0", path))
+                } else {
+                    Ok(())
+                }
+            }
+            Stmt::Select { subject, cases, else_ } => {
+                self.feat("select");
+                let v = self.eval(subject, path)?;
+                for (k, (items, body)) in cases.iter().enumerate() {
+                    let cp = format!("{}/case{}", path, k);
+                    for it in items {
+                        if self.case_matches(&v, it, &cp)? {
+                            self.feat("branch-taken");
+                            return self.run_block(body, path, &format!("c{}", k));
+                        }
+                    }
+                }
+                if let Some(e) = else_ {
+                    self.feat("branch-taken");
+                    return self.run_block(e, path, "else");
+                }
+                Ok(())
+            }
+            Stmt::For { var, from, to, step, body, .. } => {
+                self.feat("for");
+                let vty = var.ety();
+                let f = self.eval(from, path)?;
+                self.store(var, f, path)?;
+                let limit = self.eval(to, path)?;
+                let limit = match limit.num().convert(vty) {
+                    Ok(n) => n,
+                    Err(e) => return self.num_err(e, path),
+                };
+                let step_v = match step {
+                    Some(s) => {
+                        let v = self.eval(s, path)?;
+                        let n = v.num().clone();
+                        if n.is_zero() {
+                            return undet("FOR with zero step");
+                        }
+                        if vty.is_whole() && !n.is_whole() {
+                            return undet("fractional step for a whole-number counter");
+                        }
+                        if n.sign() < 0 {
+                            self.feat("for-negative-step");
+                        } else {
+                            self.feat("for-positive-step");
+                        }
+                        if !matches!(s, Expr::Lit(_)) && !matches!(s, Expr::Un(UnOp::Neg, x) if matches!(**x, Expr::Lit(_))) {
+                            self.feat("for-computed-step");
+                        }
+                        n
+                    }
+                    None => Num::whole(Ty::Int, 1),
+                };
+                let end_path = format!("{}/end", path);
+                loop {
+                    let cur = self.load(var, path)?;
+                    let c = cur.num().cmp(&limit);
+                    let go = if step_v.sign() >= 0 { c != std::cmp::Ordering::Greater } else { c != std::cmp::Ordering::Less };
+                    if !go {
+                        break;
+                    }
+                    self.feat("loop-iterated");
+                    self.run_block(body, path, "b")?;
+                    // increment: counter + step, converted to the counter's type
+                    let cur = self.load(var, path)?;
+                    let sum = match self.binop(BinOp::Add, cur, Val::N(step_v.clone()), path) {
+                        Ok(v) => v,
+                        Err(Stop::Err(mut e)) => {
+                            e.paths.push(end_path.clone());
+                            return Err(Stop::Err(e));
+                        }
+                        Err(o) => return Err(o),
+                    };
+                    match self.store(var, sum, path) {
+                        Ok(()) => {}
+                        Err(Stop::Err(mut e)) => {
+                            e.paths.push(end_path.clone());
+                            self.triggers.insert("int-arith-overflow-unguarded");
+                            return Err(Stop::Err(e));
+                        }
+                        Err(o) => return Err(o),
+                    }
+                    self.statements += 1;
+                    if self.statements > self.budget {
+                        return undet("reference statement budget");
+                    }
+                }
+                Ok(())
+            }
+            Stmt::While { cond, body } => {
+                self.feat("while");
+                while self.truthy(cond, path)? {
+                    self.feat("loop-iterated");
+                    self.run_block(body, path, "b")?;
+                    self.statements += 1;
+                    if self.statements > self.budget {
+                        return undet("reference statement budget");
+                    }
+                }
+                Ok(())
+            }
+            Stmt::Do { kind, cond, body } => {
+                self.feat(match kind {
+                    DoKind::TopWhile => "do-while-top",
+                    DoKind::TopUntil => "do-until-top",
+                    DoKind::BottomWhile => "do-while-bottom",
+                    DoKind::BottomUntil => "do-until-bottom",
+                });
+                let end_path = format!("{}/end", path);
+                loop {
+                    match kind {
+                        DoKind::TopWhile => {
+                            if !self.truthy(cond, path)? {
+                                break;
+                            }
+                        }
+                        DoKind::TopUntil => {
+                            if self.truthy(cond, path)? {
+                                break;
+                            }
+                        }
+                        _ => {}
+                    }
+                    self.feat("loop-iterated");
+                    self.run_block(body, path, "b")?;
+                    match kind {
+                        DoKind::BottomWhile => {
+                            if !self.truthy(cond, &end_path)? {
+                                break;
+                            }
+                        }
+                        DoKind::BottomUntil => {
+                            if self.truthy(cond, &end_path)? {
+                                break;
+                            }
+                        }
+                        _ => {}
+                    }
+                    self.statements += 1;
+                    if self.statements > self.budget {
+                        return undet("reference statement budget");
+                    }
+                }
+                Ok(())
+            }
+            Stmt::Read(ls) => {
+                self.feat("read");
+                for l in ls {
+                    if self.data_pos >= self.data.len() {
+                        self.feat("out-of-data");
+                        return self.err(4, path);
+                    }
+                    let item = self.data[self.data_pos].clone();
+                    self.data_pos += 1;
+                    let v = match item {
+                        DataItem::Num(neg, lit) => {
+                            let v = self.lit(&lit)?;
+                            if neg { Val::N(v.num().neg()) } else { v }
+                        }
+                        DataItem::Str(s) => Val::S(s),
+                    };
+                    match (&v, l.ety()) {
+                        (Val::N(_), Ty::Str) | (Val::S(_), Ty::Int | Ty::Long | Ty::Single | Ty::Double) => return undet("READ of a number into a string or vice versa"),
+                        _ => {}
+                    }
+                    self.store(l, v, path)?;
+                }
+                Ok(())
+            }
+            Stmt::Data(_) | Stmt::Label(_) | Stmt::Const(..) => Ok(()),
+            Stmt::Goto(l) => {
+                self.feat("goto");
+                Err(Stop::Goto(l.clone()))
+            }
+            Stmt::Gosub(l) => {
+                self.feat("gosub");
+                self.gosub_depth += 1;
+                if self.gosub_depth >= 2 {
+                    self.feat("gosub-nested");
+                }
+                let r = if self.frames.len() == 1 { self.run_from_label_main(l) } else { self.run_from_label_proc(l) };
+                match r {
+                    Err(Stop::Return) => {
+                        self.gosub_depth -= 1;
+                        Ok(())
+                    }
+                    Ok(()) => Err(Stop::End),
+                    Err(o) => Err(o),
+                }
+            }
+            Stmt::Return => {
+                if self.gosub_depth == 0 {
+                    self.feat("return-without-gosub");
+                    self.err(3, path)
+                } else {
+                    Err(Stop::Return)
+                }
+            }
+            Stmt::OnErrorGoto(l) => {
+                self.feat(if l.is_some() { "on-error-goto" } else { "on-error-goto-0" });
+                self.handler = l.clone();
+                Ok(())
+            }
+            Stmt::Resume(k) => {
+                if !self.in_handler {
+                    self.feat("resume-without-error");
+                    return self.err(20, path);
+                }
+                Err(match k {
+                    ResumeKind::Same => Stop::ResumeSame,
+                    ResumeKind::Next => Stop::ResumeNext,
+                })
+            }
+            Stmt::ResumeLabel(l) => {
+                if !self.in_handler {
+                    self.feat("resume-without-error");
+                    return self.err(20, path);
+                }
+                Err(Stop::Goto(l.clone()))
+            }
+            Stmt::CallSub(p, args) => self.call(*p, args, path).map(|_| ()),
+            Stmt::Dim(d) => {
+                let (fi, ci) = self.locate(d.var);
+                if d.bounds.is_empty() {
+                    return Ok(());
+                }
+                let n: usize = d.bounds.iter().map(|(lo, hi)| (hi - lo + 1) as usize).product();
+                let dv = default_val(&d.sty, self.prog);
+                if matches!(self.frames[fi].cells[ci], Cell::Unset) {
+                    self.frames[fi].cells[ci] = Cell::Array { bounds: d.bounds.clone(), elems: vec![dv; n] };
+                }
+                Ok(())
+            }
+            Stmt::End => Err(Stop::End),
+            Stmt::ExitProc => Err(Stop::ExitProc),
+            Stmt::Raw(_) => undet("raw statement"),
+        }
+    }
+
+    fn run_block(&mut self, stmts: &[Stmt], parent: &str, name: &str) -> R<()> {
+        let parent = parent.to_string();
+        let name = name.to_string();
+        self.run_stmts(stmts, 0, &move |i| path_child(&parent, &name, i))
+    }
+
+    /// Runs `stmts` from `start`; a GOTO to a label of this very block continues here.
+    fn run_stmts(&mut self, stmts: &[Stmt], start: usize, pathf: &dyn Fn(usize) -> String) -> R<()> {
+        let mut i = start;
+        while i < stmts.len() {
+            let p = pathf(i);
+            match self.exec(&stmts[i], &p) {
+                Ok(()) => i += 1,
+                Err(Stop::Goto(l)) => {
+                    match stmts.iter().position(|s| matches!(s, Stmt::Label(x) if x.eq_ignore_ascii_case(&l))) {
+                        Some(k) => {
+                            if k <= i {
+                                self.feat("goto-backward");
+                            }
+                            i = k;
+                            self.statements += 1;
+                            if self.statements > self.budget {
+                                return undet("reference statement budget");
+                            }
+                        }
+                        None => {
+                            self.feat("goto-out-of-block");
+                            return Err(Stop::Goto(l));
+                        }
+                    }
+                }
+                Err(o) => return Err(o),
+            }
+        }
+        Ok(())
+    }
+
+    fn run_block_top(&mut self, stmts: &[Stmt], pathf: &dyn Fn(usize) -> String) -> R<()> {
+        self.run_stmts(stmts, 0, pathf)
+    }
+
+    fn run_from_label_main(&mut self, l: &str) -> R<()> {
+        let prog = self.prog;
+        let Some(k) = prog.main.iter().position(|s| matches!(s, Stmt::Label(x) if x.eq_ignore_ascii_case(l))) else {
+            panic!("refsem: label {} not at module top level", l);
+        };
+        self.run_stmts(&prog.main, k, &path_main)
+    }
+
+    fn run_from_label_proc(&mut self, l: &str) -> R<()> {
+        let prog = self.prog;
+        let p = self.frames.last().unwrap().proc_.unwrap();
+        let body = &prog.procs[p].body;
+        let Some(k) = body.iter().position(|s| matches!(s, Stmt::Label(x) if x.eq_ignore_ascii_case(l))) else {
+            panic!("refsem: label {} not at procedure top level", l);
+        };
+        self.run_stmts(body, k, &move |i| path_proc(p, i))
+    }
+}
+
+struct LValueResolved {
+    fi: usize,
+    ci: usize,
+    slot: Option<usize>,
+    fields: Vec<String>,
+    sty: STy,
+}
+
+fn rel(op: BinOp, ord: std::cmp::Ordering) -> bool {
+    use std::cmp::Ordering::*;
+    match op {
+        BinOp::Eq => ord == Equal,
+        BinOp::Ne => ord != Equal,
+        BinOp::Lt => ord == Less,
+        BinOp::Le => ord != Greater,
+        BinOp::Gt => ord == Greater,
+        BinOp::Ge => ord != Less,
+        _ => panic!("not relational"),
+    }
+}
+
+pub fn render_val(v: &Val) -> String {
+    match v {
+        Val::N(n) => format!("{:?}:{}", n.ty, crate::genr::print::dyadic_decimal(n.m, n.s)),
+        Val::S(s) => format!("{:?}", s),
+        Val::Rec(fs) => format!("{{{}}}", fs.iter().map(|(n, v)| format!("{}={}", n, render_val(v))).collect::<Vec<_>>().join(",")),
+    }
+}
+
+/// Runs the reference semantics on a program.
+pub fn run(prog: &Program, budget: u64) -> Outcome {
+    let mut m = Machine::new(prog, budget);
+    let r = m.run_block_top(&prog.main, &path_main);
+    let end = match r {
+        Ok(()) | Err(Stop::End) => RefEnd::Ok,
+        Err(Stop::Err(e)) => RefEnd::Err(e),
+        Err(Stop::Undet(why)) => return Outcome::Undetermined(why),
+        Err(Stop::Goto(l)) => panic!("refsem: GOTO to unknown label {}", l),
+        Err(Stop::Return) => panic!("refsem: stray RETURN flow"),
+        Err(Stop::ExitProc) => panic!("refsem: EXIT outside procedure"),
+        Err(Stop::ResumeSame) | Err(Stop::ResumeNext) => panic!("refsem: stray RESUME flow"),
+    };
+    let mut globals = BTreeMap::new();
+    for (i, v) in prog.vars.iter().enumerate() {
+        match &m.frames[0].cells[i] {
+            Cell::Scalar(val) => {
+                globals.insert(v.name.to_uppercase(), render_val(val));
+            }
+            Cell::Array { elems, .. } => {
+                globals.insert(v.name.to_uppercase(), format!("[{}]", elems.iter().map(render_val).collect::<Vec<_>>().join(",")));
+            }
+            Cell::Unset => {}
+        }
+    }
+    Outcome::Determined(RefResult { stdout: m.out, end, triggers: m.triggers, statements: m.statements, features: m.features, globals, printed_var: m.printed_var })
+}
